@@ -1402,16 +1402,19 @@ def sensors_temperatures():
                         os.path.join(base, trip_point + "_temp"), fallback=None
                     )
 
-                if high is not None:
-                    try:
-                        high = float(high) / 1000.0
-                    except ValueError:
-                        high = None
-                if critical is not None:
-                    try:
-                        critical = float(critical) / 1000.0
-                    except ValueError:
-                        critical = None
+            # Convert once all trip points have been scanned (doing it
+            # inside the loop divided an already converted value again
+            # for every remaining trip point).
+            if high is not None:
+                try:
+                    high = float(high) / 1000.0
+                except ValueError:
+                    high = None
+            if critical is not None:
+                try:
+                    critical = float(critical) / 1000.0
+                except ValueError:
+                    critical = None
 
             ret[unit_name].append(('', current, high, critical))
 
